@@ -77,7 +77,9 @@ class ForcePlatformData(Sized, BuildWriteable):
     @property
     def _segments(self):
         # Wherever application_point is masked, force and torque are also masked
-        maskedData = np.ma.masked_invalid(self.application_point)
+        maskedData = np.ma.masked_where(
+            np.isnan(self.application_point), self.application_point
+        )
         return np.ma.clump_unmasked(maskedData.T[0])
 
     def _get_segment_data(self, segment):
